@@ -62,7 +62,7 @@ RInt(m, i, line) == IF IntOk(i) THEN R(m, IntV(i)) ELSE R(Raise(m, "spec_domain"
 
 Builtins == {"set", "len", "range", "list", "tuple", "bool", "int", "str", "repr", "type", "sorted",
              "reversed", "enumerate", "zip", "min", "max", "any", "all", "abs", "fail", "emit", "dict",
-             "struct", "chr", "ord", "getattr", "hasattr", "map", "filter", "partial"}
+             "struct", "chr", "ord", "getattr", "hasattr", "map", "filter", "partial", "record", "enum", "field"}
 
 (* ------------------------------------------------------------------ names and frames *)
 NameIdx(names, n) == IF \E i \in 1..Len(names) : names[i] = n
@@ -118,6 +118,7 @@ IterOf(v, h) ==
     ELSE IF IsList(v, h) THEN [ok |-> TRUE, items |-> h[v.a].items, a |-> v.a]
     ELSE IF IsDict(v, h) THEN [ok |-> TRUE, items |-> h[v.a].keys, a |-> v.a]
     ELSE IF IsSet(v, h) THEN [ok |-> TRUE, items |-> h[v.a].items, a |-> v.a]
+    ELSE IF IsEType(v, h) THEN [ok |-> TRUE, items |-> [i \in 1..Len(h[v.a].vals) |-> [t |-> "ev", ty |-> v.a, i |-> i]], a |-> 0]
     ELSE [ok |-> FALSE, items |-> <<>>, a |-> 0]
 
 (* ------------------------------------------------------------------ dict helpers *)
@@ -251,6 +252,10 @@ Index(c, i, m, line) ==
         (IF ~Hashable(i, h) THEN R(Raise(m, "not_hashable", line), NoneV)
          ELSE LET j == DictFindIn(h[c.a].keys, i, h) IN
               IF j = 0 THEN R(Raise(m, "key", line), NoneV) ELSE R(m, h[c.a].vals[j]))
+    ELSE IF IsEType(c, h) THEN
+        (IF i.t # "int" THEN R(Raise(m, "type", line), NoneV)
+         ELSE LET x == SeqIndex(h[c.a].vals, i.v, m, line) IN
+              IF ~x.ok THEN R(Raise(m, "index", line), NoneV) ELSE R(m, [t |-> "ev", ty |-> c.a, i |-> x.p]))
     ELSE IF c.t \in {"tuple", "str", "range"} \/ IsList(c, h) THEN
         (IF i.t # "int" THEN R(Raise(m, "type", line), NoneV)
          ELSE LET s == IF c.t = "tuple" THEN c.v ELSE IF c.t = "str" THEN c.s
@@ -397,9 +402,31 @@ HasMethod(v, name, h) ==
     ELSE IF IsSet(v, h) THEN name \in SetMethods
     ELSE IF v.t = "str" THEN name \in StrMethods
     ELSE FALSE
+N_value == <<118, 97, 108, 117, 101>>
+N_index == <<105, 110, 100, 101, 120>>
+N_type == <<116, 121, 112, 101>>
+N_values == <<118, 97, 108, 117, 101, 115>>
 GetAttr(v, name, ncp, m, line) ==
     IF v.t = "struct" THEN
         (LET j == FieldIdx(v.ks, ncp) IN IF j # 0 THEN R(m, v.vs[j]) ELSE R(Raise(m, "attr", line), NoneV))
+    ELSE IF v.t = "rec" THEN
+        (LET fs == m.heap[v.ty].fields
+             c == {j \in 1..Len(fs) : fs[j].n = ncp} IN
+         IF c = {} THEN R(Raise(m, "attr", line), NoneV) ELSE R(m, v.vs[CHOOSE j \in c : TRUE]))
+    ELSE IF v.t = "ev" THEN
+        (IF ncp = N_value THEN R(m, m.heap[v.ty].vals[v.i])
+         ELSE IF ncp = N_index THEN R(m, IntV(v.i - 1))
+         ELSE R(Raise(m, "attr", line), NoneV))
+    ELSE IF IsEType(v, m.heap) \/ IsRType(v, m.heap) THEN
+        \* .type is the name the type got when first bound to a module-level variable; an enum type also
+        \* offers .values() and each of its values under the value's own spelling (E.x); other attributes
+        \* of type objects are not specified here
+        (LET o == m.heap[v.a] IN
+         IF ncp = N_type THEN (IF Len(o.name) = 0 THEN R(Raise(m, "spec_domain", line), NoneV) ELSE R(m, StrV(o.name)))
+         ELSE IF o.kind = "etype" /\ ncp = N_values THEN R(m, BmV("values", v))
+         ELSE IF o.kind = "etype" /\ \E i \in 1..Len(o.vals) : o.vals[i] = StrV(ncp)
+              THEN R(m, [t |-> "ev", ty |-> v.a, i |-> CHOOSE i \in 1..Len(o.vals) : o.vals[i] = StrV(ncp)])
+         ELSE R(Raise(m, "spec_domain", line), NoneV))
     ELSE IF HasMethod(v, name, m.heap) THEN R(m, BmV(name, v))
     ELSE R(Raise(m, "attr", line), NoneV)
 
@@ -619,11 +646,33 @@ Assign(tg, v, env, m, line) ==
 (* ---- calls ---- *)
 (* tick: TRUE for a call instruction of the program, FALSE for a call made by native code *)
 CallV(f, pos, named, m0, line, tick) ==
-    LET m == IF tick /\ (f.t \in {"bi", "partial"} \/ IsFn(f, m0.heap)) THEN Tick(m0, line) ELSE m0 IN
+    LET m == IF tick /\ (f.t \in {"bi", "partial"} \/ IsFn(f, m0.heap) \/ IsRType(f, m0.heap) \/ IsEType(f, m0.heap)) THEN Tick(m0, line) ELSE m0 IN
     IF ~Ok(m) THEN R(m, NoneV)
     ELSE IF f.t = "bi" THEN
         (IF m.depth + 1 >= m.cap THEN R(Raise(m, "depth", line), NoneV) ELSE CallBuiltin(f.name, pos, named, m, line))
     ELSE IF f.t = "bm" THEN CallMethod(f.self, f.name, pos, named, m, line)
+    ELSE IF IsEType(f, m.heap) THEN
+        \* E(v): the value of E that equals v
+        (IF Len(pos) # 1 \/ Len(named) # 0 THEN R(Raise(m, "arity", line), NoneV)
+         ELSE IF m.depth + 1 >= m.cap THEN R(Raise(m, "depth", line), NoneV)
+         ELSE LET vals == m.heap[f.a].vals
+                  c == {i \in 1..Len(vals) : Eq(vals[i], pos[1], m.heap)} IN
+              IF c = {} THEN R(Raise(m, "value", line), NoneV)
+              ELSE R(m, [t |-> "ev", ty |-> f.a, i |-> CHOOSE i \in c : TRUE]))
+    ELSE IF IsRType(f, m.heap) THEN
+        \* R(a = .., b = ..): named arguments only; defaults fill the rest (the default VALUE is shared by
+        \* every instance); every value must belong to its field's type; the type must have a name
+        (LET o == m.heap[f.a]
+             fs == o.fields
+             known(q) == \E j \in 1..Len(fs) : fs[j].n = named[q][1]
+             given(j) == {q \in 1..Len(named) : named[q][1] = fs[j].n}
+             vs == [j \in 1..Len(fs) |-> IF given(j) # {} THEN named[CHOOSE q \in given(j) : TRUE][2] ELSE fs[j].d] IN
+         IF m.depth + 1 >= m.cap THEN R(Raise(m, "depth", line), NoneV)
+         ELSE IF Len(pos) # 0 \/ (\E q \in 1..Len(named) : ~known(q)) \/ (\E j \in 1..Len(fs) : Cardinality(given(j)) > 1)
+                 \/ (\E j \in 1..Len(fs) : vs[j].t = "unbound") THEN R(Raise(m, "arity", line), NoneV)
+         ELSE IF \E j \in 1..Len(fs) : ~Matches(fs[j].ty, vs[j], m.heap) THEN R(Raise(m, "type", line), NoneV)
+         ELSE IF Len(o.name) = 0 THEN R(Raise(m, "value", line), NoneV)
+         ELSE R(m, [t |-> "rec", ty |-> f.a, vs |-> vs]))
     ELSE IF f.t = "partial" THEN
         \* stored arguments first; a keyword given both at creation and at the call is an error
         (IF \E p \in 1..Len(f.named), q \in 1..Len(named) : f.named[p][1] = named[q][1] THEN R(Raise(m, "arity", line), NoneV)
@@ -694,7 +743,12 @@ X(s, env, m0) ==
     IF ~Ok(m) THEN Flow(m, "next", NoneV)
     ELSE IF s.k = "expr" THEN (LET x == E(s.e, env, m) IN Flow(x.m, "next", NoneV))
     ELSE IF s.k = "assign" THEN
-        (LET x == E(s.e, env, m) IN Flow(Assign(s.tg, x.v, env, x.m, s.line), "next", NoneV))
+        (LET x == E(s.e, env, m)
+             \* a record / enum type gets its name from the first module-level variable it is assigned to
+             naming == Ok(x.m) /\ x.m.depth = 0 /\ s.tg.k = "var" /\ "ncp" \in DOMAIN s.tg
+                       /\ (IsRType(x.v, x.m.heap) \/ IsEType(x.v, x.m.heap)) /\ Len(x.m.heap[x.v.a].name) = 0
+             m1 == IF naming THEN [x.m EXCEPT !.heap[x.v.a].name = s.tg.ncp] ELSE x.m
+         IN Flow(Assign(s.tg, x.v, env, m1, s.line), "next", NoneV))
     ELSE IF s.k = "aug" THEN
         (IF s.tg.k = "var" THEN
             (LET l == E([k |-> "var", n |-> s.tg.n, line |-> s.line], env, m)
@@ -808,6 +862,7 @@ CallBuiltin(name, pos, named, m, line) ==
               ELSE IF v.t = "range" THEN R(m, IntV(RangeLen(v)))
               ELSE IF IsList(v, h) \/ IsSet(v, h) THEN R(m, IntV(Len(h[v.a].items)))
               ELSE IF IsDict(v, h) THEN R(m, IntV(Len(h[v.a].keys)))
+              ELSE IF IsEType(v, h) THEN R(m, IntV(Len(h[v.a].vals)))
               ELSE TypeE(m, line))
     ELSE IF name = "range" THEN
         (IF n < 1 \/ n > 3 \/ Len(named) # 0 THEN Arity(m, line)
@@ -936,6 +991,28 @@ CallBuiltin(name, pos, named, m, line) ==
                    ELSE IF name = "map" THEN NewList(ks.m, ks.vs)
                    ELSE LET keep == SelectSeq([j \in 1..Len(io.items) |-> j], LAMBDA j : Truth(ks.vs[j], ks.m.heap))
                         IN NewList(ks.m, [j \in 1..Len(keep) |-> io.items[keep[j]]]))
+    ELSE IF name = "field" THEN
+        \* field(type[, default]): the type is one of the basic type names; the default must belong to it
+        (IF n < 1 \/ n > 2 \/ Len(named) # 0 THEN R(Raise(m, "spec_domain", line), NoneV)
+         ELSE IF ~(pos[1].t = "bi" /\ pos[1].name \in {"int", "str", "bool", "list", "dict", "tuple"}) THEN R(Raise(m, "spec_domain", line), NoneV)
+         ELSE LET ty == [k |-> "tname", n |-> pos[1].name] IN
+              IF n = 2 /\ ~Matches(ty, pos[2], h) THEN TypeE(m, line)
+              ELSE R(m, [t |-> "fieldspec", ty |-> ty, d |-> IF n = 2 THEN pos[2] ELSE UnboundV]))
+    ELSE IF name = "record" THEN
+        (IF n # 0 THEN Arity(m, line)
+         ELSE IF \E q \in 1..Len(named) : ~(named[q][2].t = "fieldspec"
+                                             \/ (named[q][2].t = "bi" /\ named[q][2].name \in {"int", "str", "bool", "list", "dict", "tuple"}))
+              THEN R(Raise(m, "spec_domain", line), NoneV)
+         ELSE LET fs == [q \in 1..Len(named) |->
+                            IF named[q][2].t = "fieldspec" THEN [n |-> named[q][1], ty |-> named[q][2].ty, d |-> named[q][2].d]
+                            ELSE [n |-> named[q][1], ty |-> [k |-> "tname", n |-> named[q][2].name], d |-> UnboundV]]
+                  x == Alloc(m, [kind |-> "rtype", name |-> <<>>, fields |-> fs])
+              IN R(x.m, RefV(x.a)))
+    ELSE IF name = "enum" THEN
+        (IF Len(named) # 0 THEN Arity(m, line)
+         ELSE IF \E q \in 1..n : pos[q].t # "str" THEN TypeE(m, line)
+         ELSE IF \E p, q \in 1..n : p < q /\ pos[p] = pos[q] THEN R(Raise(m, "value", line), NoneV)
+         ELSE LET x == Alloc(m, [kind |-> "etype", name |-> <<>>, vals |-> pos]) IN R(x.m, RefV(x.a)))
     ELSE IF name = "partial" THEN
         (IF n < 1 THEN Arity(m, line)
          ELSE R(m, [t |-> "partial", f |-> pos[1], pos |-> Tail(pos), named |-> named]))
@@ -961,6 +1038,8 @@ CallBuiltin(name, pos, named, m, line) ==
 CallMethod(o, name, pos, named, m, line) ==
     LET h == m.heap n == Len(pos) Attr == R(Raise(m, "attr", line), NoneV) IN
     IF Len(named) # 0 /\ ~(o.t = "str" /\ name = "format") /\ ~(IsDict(o, h) /\ name = "update") THEN R(Raise(m, "spec_domain", line), NoneV)
+    ELSE IF IsEType(o, h) THEN
+        (IF name = "values" THEN (IF n # 0 THEN Arity(m, line) ELSE NewList(m, h[o.a].vals)) ELSE R(Raise(m, "spec_domain", line), NoneV))
     ELSE IF IsList(o, h) THEN
         (LET items == h[o.a].items IN
          IF name = "append" THEN
